@@ -261,9 +261,7 @@ theorem deepClash_pairs (kvs : List (Str × Str)) : deepClash (deepPairs kvs) = 
   intro kv hkv
   simp only [deepPairs, List.mem_map] at hkv
   obtain ⟨x, _, rfl⟩ := hkv
-  have := deepUnder_pairs x.1 kvs
-  simp [deepPairs] at this
-  simp [deepPairs, this]
+  simp [deepPairs, segPrefix]
 
 theorem lookup_none_of_not_hasKey {β : Type} (k : Str) : ∀ (l : List (Str × β)), hasKey k l = false → l.lookup k = none
   | [], _ => rfl
